@@ -653,7 +653,7 @@ func (self *RefExp) EncodeJSON(buf *bytes.Buffer) error {
 			dims = append(dims, k)
 		}
 		sort.Slice(dims, func(i, j int) bool {
-			return dims[i].Id < dims[j].Id
+			return callLess(dims[i], dims[j])
 		})
 		for _, s := range dims {
 			i := self.Forks[s]
